@@ -276,7 +276,8 @@ V_CELL = 'K9'
 
 def lookup_arg(cells, v, inline):
     """the lookup value as a formula argument: a literal, or a reference to a cell holding it"""
-    if inline and v is not None and not (isinstance(v, str) and '\n' in v):
+    if inline and v is not None and not (isinstance(v, str) and set(v) & set('\n\r\\')):
+        # (a backslash / line break inside a text literal of a formula is C02's business, not a lookup matter)
         return excel_literal(v)
     if v is not None:
         cells[V_CELL] = v
